@@ -388,7 +388,7 @@ class Gen:
                     substs.append((m.group(1).replace('\\"', '"'), m.group(2).replace('\\"', '"'), m.group(3) or 'R5')); continue
                 m = re.match(r'header\s+"(.*)"\s*=>\s*"(.*)"$', dd)
                 if m:
-                    hsubsts.append((m.group(1), m.group(2))); continue
+                    hsubsts.append((m.group(1).replace('\\n', '\n'), m.group(2).replace('\\n', '\n'))); continue
                 if dd == 'nobody':
                     nobody = True; continue
                 m = re.match(r'eta\s+(\w+)$', dd)
